@@ -182,6 +182,31 @@ func main() {
 		return fn.Pkg != nil && strings.HasPrefix(fn.Pkg.Pkg.Path(), "github.com/osteele/liquid") &&
 			!strings.HasSuffix(fn.Pkg.Pkg.Path(), "/cmd/liquid")
 	}
+	// package-level maps that are written outside init (in whatever function, under a lock or not): every access to
+	// them at parse / render time must hold a lock
+	globalOf := func(v ssa.Value) *ssa.Global {
+		if un, ok := v.(*ssa.UnOp); ok {
+			if g, ok := un.X.(*ssa.Global); ok {
+				return g
+			}
+		}
+		return nil
+	}
+	mutableMaps := map[*ssa.Global]bool{}
+	for fn := range ssautil.AllFunctions(prog) {
+		if !inRepo(fn) || fn.Name() == "init" || strings.HasPrefix(fn.Name(), "init#") {
+			continue
+		}
+		for _, b := range fn.Blocks {
+			for _, ins := range b.Instrs {
+				if mu, ok := ins.(*ssa.MapUpdate); ok {
+					if g := globalOf(mu.Map); g != nil {
+						mutableMaps[g] = true
+					}
+				}
+			}
+		}
+	}
 	for fn := range ssautil.AllFunctions(prog) {
 		if !inRepo(fn) || fn.Name() == "init" || strings.HasPrefix(fn.Name(), "init#") {
 			continue
@@ -189,20 +214,50 @@ func main() {
 		if fn.Synthetic != "" {
 			continue
 		}
-		locks := false
+		// guarded[ins]: the instruction runs with a lock held - the function defers an Unlock (lock for the rest of the
+		// call), or a Lock call precedes it in its basic block with no Unlock in between
+		isCallTo := func(ins ssa.Instruction, names ...string) bool {
+			call, ok := ins.(ssa.CallInstruction)
+			if !ok {
+				return false
+			}
+			callee := call.Common().StaticCallee()
+			if callee == nil {
+				return false
+			}
+			for _, n := range names {
+				if callee.Name() == n {
+					return true
+				}
+			}
+			return false
+		}
+		deferUnlock := false
 		for _, b := range fn.Blocks {
 			for _, ins := range b.Instrs {
-				if call, ok := ins.(ssa.CallInstruction); ok {
-					if callee := call.Common().StaticCallee(); callee != nil && (callee.Name() == "Lock" || callee.Name() == "RLock") {
-						locks = true
+				if _, ok := ins.(*ssa.Defer); ok && isCallTo(ins, "Unlock", "RUnlock") {
+					deferUnlock = true
+				}
+			}
+		}
+		guarded := map[ssa.Instruction]bool{}
+		for _, b := range fn.Blocks {
+			held := false
+			for _, ins := range b.Instrs {
+				if _, isDefer := ins.(*ssa.Defer); !isDefer {
+					if isCallTo(ins, "Lock", "RLock") {
+						held = true
+					} else if isCallTo(ins, "Unlock", "RUnlock") {
+						held = false
 					}
 				}
+				guarded[ins] = held || deferUnlock
 			}
 		}
 		configTime := regexp.MustCompile(`^(Add|Register|New|add|Clause|Compiler|Renderer|Delims|StrictVariables)`).MatchString(fn.Name())
 		for _, b := range fn.Blocks {
 			for _, ins := range b.Instrs {
-				if mu, ok := ins.(*ssa.MapUpdate); ok && !locks && !configTime {
+				if mu, ok := ins.(*ssa.MapUpdate); ok && !guarded[ins] && !configTime {
 					// a map reached through a field of a (shared) structure, written outside configuration
 					if un, ok := mu.Map.(*ssa.UnOp); ok {
 						if fa, ok := un.X.(*ssa.FieldAddr); ok {
@@ -216,6 +271,23 @@ func main() {
 						}
 					}
 				}
+				if !guarded[ins] && !configTime {
+					var m ssa.Value
+					switch x := ins.(type) {
+					case *ssa.Lookup:
+						m = x.X
+					case *ssa.Range:
+						m = x.X
+					case *ssa.MapUpdate:
+						m = x.Map
+					}
+					if m != nil {
+						if g := globalOf(m); g != nil && mutableMaps[g] {
+							pos := prog.Fset.Position(ins.Pos())
+							cells = append(cells, cell{fn.String(), g.Name(), fmt.Sprintf("%s:%d", strings.TrimPrefix(pos.Filename, dir+"/"), pos.Line), "globalmap"})
+						}
+					}
+				}
 				st, ok := ins.(*ssa.Store)
 				if !ok {
 					continue
@@ -225,7 +297,7 @@ func main() {
 				case *ssa.FieldAddr:
 					// a field of a structure the function did not create itself (it came in as a parameter or
 					// receiver, or was read from somewhere): shared unless the structure belongs to one call
-					if !locks && !configTime && !localObject(a.X) && !perCall(a.X.Type().String()) {
+					if !guarded[ins] && !configTime && !localObject(a.X) && !perCall(a.X.Type().String()) {
 						name := a.X.Type().String() + "." + fieldName(a)
 						cells = append(cells, cell{fn.String(), name, fmt.Sprintf("%s:%d", strings.TrimPrefix(pos.Filename, dir+"/"), pos.Line), "sharedfield"})
 					}
